@@ -72,7 +72,9 @@ func genVJP(t *rapid.T, ops []string, expand bool) VJPCase {
 			p.Leaves[k].Vals[i] = cv
 		}
 	}
+	large := false
 	if (op == "exp" || op == "sinh" || op == "cosh" || op == "tanh" || op == "sin" || op == "cos") && rapid.IntRange(0, 5).Draw(t, "largeargs") == 0 {
+		large = true
 		// arguments of magnitude 300..700: results and derivatives near the end of the float64
 		// range, yet finite (squares and products of them are not)
 		v := p.Leaves[0].Vals
@@ -93,7 +95,9 @@ func genVJP(t *rapid.T, ops []string, expand bool) VJPCase {
 	}
 	// sometimes the result is passed through one or two further structural operations before
 	// it is weighted and back-propagated (the rule under test then runs inside a longer chain)
-	if rapid.IntRange(0, 3).Draw(t, "post") == 0 {
+	// (no post-operations in the large-argument regime: a SumAlong over results 170 orders of
+	// magnitude apart has no well-conditioned value to compare)
+	if !large && rapid.IntRange(0, 3).Draw(t, "post") == 0 {
 		np := rapid.IntRange(1, 2).Draw(t, "npost")
 		for i := 0; i < np; i++ {
 			prev := len(p.Leaves) + len(p.Nodes) - 1
@@ -355,6 +359,11 @@ func checkVJP(c VJPCase, property string) *Failure {
 		if extra != nil {
 			if err := tensor.BackPropagate(extra); err != nil {
 				return failf("BackPropagate of a second graph over operand %d failed: %v", c.Extra-1, err)
+			}
+		}
+		if tr := c.P.Tracked(); tr[nl] {
+			if f := rootGradientIsOnes(z); f != nil {
+				return failf("%s (weighted=%v, root topology %d): %s", node.Op, variant == 0, c.Fan, f.Msg)
 			}
 		}
 		if c.P.Disturb {
